@@ -139,9 +139,82 @@ def _load_corpus():
     return [json.loads(f.read_text()) for f in files]
 
 
+def _pool(rng, nn, flavour=None):
+    """a factor pool that contains plain and population-tagged leaves"""
+    cat = GE.factor_catalogue(rng, nn, flavour or rng.choice(["mixed", "mixed", "samefirst"]))
+    pool = cat[:3]
+    if not any(x[0] == "P" for x in pool):
+        pool.append(next(x for x in cat if x[0] == "P"))
+    if not any(x[0] == "PP" for x in pool):
+        pool.append(next(x for x in cat if x[0] == "PP"))
+    return pool
+
+
+def structured_cases(rng: random.Random, scale: int = 1):
+    """systematic head of the stream: every operator overload pair (8 x 8 classes, * and /) over a common factor pool;
+    Fraction.simplify on factor multisets with designed multiplicities; Sum.simplify in every range mode x population;
+    marginalize / conditional / normalize_marginalize with ranges chosen relative to the expression (free, bound,
+    subscript, fresh names); chain / fraction / bayes expansion and contraction of catalogue leaves"""
+    out = []
+
+    def add(c):
+        c["seed"] = rng.randrange(1 << 30)
+        out.append(c)
+
+    for op in ("mul", "div"):
+        for ca in GE.EXPR_CLASSES:
+            for cb in GE.EXPR_CLASSES:
+                for _ in range(4 * scale):
+                    nn = rng.choice([3, 4, 4, 5])
+                    pool = _pool(rng, nn)
+                    add({"op": op, "a": GE.class_instance(rng, ca, pool, nn), "b": GE.class_instance(rng, cb, pool, nn),
+                         "gen": "pair"})
+    for _ in range(600 * scale):
+        e, lab = GE.struct_simplify_fraction(rng, rng.choice([3, 4, 4, 5]))
+        add({"op": "frac_simplify", "a": e, "gen": lab})
+    for mode in GE.SUM_MODES:
+        for pop in (False, GE.POPS[0], GE.POPS[1]):
+            for _ in range(14 * scale):
+                e, lab = GE.struct_sum_leaf(rng, rng.choice([3, 4, 4, 5]), mode=mode, pop=pop, wrap="none")
+                add({"op": "sum_simplify", "a": e, "gen": lab})
+    for op in ("marginalize", "conditional", "normalize_marginalize"):
+        for _ in range(300 * scale):
+            nn = rng.choice([3, 4, 4, 5])
+            if rng.random() < 0.6:
+                a, lab = GE.struct_expr(rng, nn)
+            else:
+                a = GE.class_instance(rng, rng.choice(["P", "PP", "prod", "sum", "frac"]), _pool(rng, nn), nn)
+                lab = "class"
+            r, mode = GE.struct_ranges(rng, a, nn)
+            add({"op": op, "a": a, "r": r, "gen": lab, "rmode": mode})
+    for _ in range(300 * scale):
+        nn = rng.choice([3, 4, 4, 5])
+        leaves = [x for x in GE.factor_catalogue(rng, nn, rng.choice(["mixed", "samefirst", "worlds"])) if x[0] in ("P", "PP")]
+        a = rng.choice(leaves)
+        op = rng.choice(["chain_expand", "chain_expand", "fraction_expand", "bayes_expand"])
+        c = {"op": op, "a": a, "gen": "leaf"}
+        if op == "chain_expand":
+            c["reorder"] = rng.random() < 0.7
+            o = rng.random()
+            c["ordering"] = None if o < 0.4 else GE.rand_ordering(rng, a, nn, covering=o < 0.9)
+        add(c)
+    for _ in range(200 * scale):
+        nn = rng.choice([3, 4, 4, 5])
+        inner = _contract_case(rng, nn)
+        e, _ = GE.struct_product(rng, nn)
+        add({"op": "recursive_contract", "a": ["prod", inner, e, _contract_case(rng, nn)], "gen": "contract"})
+    return out
+
+
 def cases(rng: random.Random, tier: str):
     out = _load_corpus()
-    n = 12000 if tier == "quick" else 80000
+    out += structured_cases(rng, 1 if tier == "quick" else 4)
+    out += random_cases(rng, 6000 if tier == "quick" else 70000)
+    return out
+
+
+def random_cases(rng: random.Random, n: int):
+    out = []
     for _ in range(n):
         op = rng.choice(OPS)
         ws = rng.random() < 0.7
@@ -404,14 +477,23 @@ def run_python(case):
             fail = f"chain_expand produced a factor that is not a single-child conditional: {res}"
     nontrivial = out[0] == "ok" and ((op in ("mul", "div") and GE.depth(case["a"]) >= 2 and GE.depth(case["b"]) >= 2)
                                      or (op not in ("mul", "div", "markov") and out[1] != X.to_str_tree(case["a"])))
-    tags = {"op": op, "outcome": out[0], "judged": inq}
+    tags = {"op": op, "outcome": out[0], "judged": inq, "gen": case.get("gen", "random").split(":")[0]}
+    if op == "frac_simplify":
+        for f in GE.simplify_profile(case["a"]):
+            tags["simplify_" + f] = True
+    if op == "sum_simplify":
+        for f in GE.features(case["a"]):
+            if f.startswith("sum:"):
+                tags["hit_" + f] = True
+    if "rmode" in case:
+        tags["rmode"] = case["rmode"]
     mech = None
     if fail and op == "conditional" and res is not None:
         extra, kinds = conditional_extra(case)
         if extra and "other" not in kinds and _conditional_explained(case, res, E):
             mech = "conditional:extra=" + "+".join(kinds)
     if op in ("mul", "div"):
-        tags["pair"] = f"{_cls(case['a'])}x{_cls(case['b'])}"
+        tags["pair_" + op] = f"{_cls(case['a'])}x{_cls(case['b'])}"
     return {"out": out, "fail": fail, "nontrivial": nontrivial, "tags": tags, "mechanism": mech}
 
 
